@@ -1,9 +1,31 @@
 //! moyo_harness: runs the real moyo code in-process and writes case files for the Lean model.
+mod c14;
 mod c15;
+mod c18;
+mod c19;
+mod c20;
+mod gen;
+mod pipeline;
 mod tables;
 mod util;
 
+struct StderrLogger;
+impl log::Log for StderrLogger {
+    fn enabled(&self, _: &log::Metadata) -> bool {
+        true
+    }
+    fn log(&self, record: &log::Record) {
+        eprintln!("[{}] {}", record.level(), record.args());
+    }
+    fn flush(&self) {}
+}
+static LOGGER: StderrLogger = StderrLogger;
+
 fn main() {
+    if std::env::var("VERIF_LOG").is_ok() {
+        let _ = log::set_logger(&LOGGER);
+        log::set_max_level(log::LevelFilter::Debug);
+    }
     // panics are caught per case; keep stderr quiet
     std::panic::set_hook(Box::new(|_| {}));
     let args: Vec<String> = std::env::args().collect();
@@ -22,11 +44,23 @@ fn main() {
         // tables-gen <out>  |  malformed-gen <count> <out>
         "tables-gen" => tables::gen_tables(&args[2]),
         "malformed-gen" => tables::gen_malformed(seed, args[2].parse().unwrap(), &args[3]),
+        // pipe-gen <mode> <tier> <out>
+        "pipe-gen" => pipeline::gen_cases(&args[2], &args[3], seed, &args[4]),
+        // pipe-one <mode> <tier> <tag>: regenerate the plan and print only the case with this tag
+        "pipe-one" => pipeline::gen_one(&args[2], &args[3], seed, &args[4]),
         // eval <infile> <outfile> <start>: evaluate request lines one by one, flushing after each
         "eval" => eval(&args[2], &args[3], args[4].parse().unwrap()),
         other => {
-            eprintln!("unknown command {}", other);
-            std::process::exit(2);
+            // Dispatch chain for per-property modules: each `dispatch` returns true if it handled the command.
+            let handled = false;
+            let handled = handled || c14::dispatch(&args, seed);
+            let handled = handled || c18::dispatch(&args, seed);
+            let handled = handled || c19::dispatch(&args, seed);
+            let handled = handled || c20::dispatch(&args, seed);
+            if !handled {
+                eprintln!("unknown command {}", other);
+                std::process::exit(2);
+            }
         }
     }
 }
